@@ -459,6 +459,16 @@ This command wraps "go %s". Below is its help:
 		} else if _, err := os.Lstat(sentinel); err == nil {
 			// It's OK to delete a non-empty directory which was created by an earlier
 			// invocation of `garble -debugdir`, which we know by leaving a sentinel file.
+			// Remove the sentinel last, so that an interrupted removal
+			// leaves a directory which we can still tell is ours.
+			for _, entry := range entries {
+				if entry.Name() == filepath.Base(sentinel) {
+					continue
+				}
+				if err := os.RemoveAll(filepath.Join(flagDebugDir, entry.Name())); err != nil {
+					return nil, fmt.Errorf("could not empty debugdir: %v", err)
+				}
+			}
 			if err := os.RemoveAll(flagDebugDir); err != nil {
 				return nil, fmt.Errorf("could not empty debugdir: %v", err)
 			}
